@@ -77,7 +77,11 @@ UrlClauses ==
   IF Bracketed(T.val)
   THEN LET hostSp == AuthSplit(T.val, UrlSplit(T.val).auth).host
            notHost(k) == ~(k.ty \in {"network.ip", "network.ipv6", "network.domain"} /\ k.s >= hostSp[1] /\ k.e <= hostSp[2])
+           hostKids == SelectSeq(CoreK(T.kids), LAMBDA k : ~notHost(k))
        IN Judge2(SelectSeq(CoreK(T.kids), notHost), SelectSeq(UrlKids(T.val), notHost))
+          \* the address itself: labelled exactly when its value is not the text between the brackets
+          \cup (IF \E i \in 1..Len(hostKids) : (hostKids[i].obf = "ip_obfuscation") # (hostKids[i].val # Sl(T.val, <<hostKids[i].s, hostKids[i].e>>))
+                THEN {"url.part.label"} ELSE {})
   ELSE IF ~UrlDomain(T.val) THEN {"n/a"}
   ELSE Judge2(CoreK(T.kids), UrlKids(T.val))
 
